@@ -336,6 +336,7 @@ fn cmd_record(plan_path: &str, outdir: &str) {
                     n_fn += 1;
                     let fname = f.id.to_string();
                     let mut rng = Rng::new(seed ^ u64::from_str_radix(&h16(&format!("{id}/{fname}"))[..15], 16).unwrap());
+                    let n_inputs = p.get("inputs_per_fn").and_then(|x| x.as_u64()).map(|x| x as usize).unwrap_or(n_inputs);
                     let mut vectors = input_vectors(&ls, n_inputs, &mut rng);
                     let extra = mined_vectors(&ls, &mined, n_mined, &mut rng);
                     for v in extra {
